@@ -290,9 +290,12 @@ class C12(Check):
                0x04ff0004, 0x0400fffc, 0x01ff0004, 0xffff0004, 0x04fffffc]      # the last subclass of a class (0x..ff), the last code
         recs = [B.rec(100 + i, (i, 0, 0, 0), 1, e) for i, e in enumerate(ids)]
         blob = B.v2([(1, 10, 'A')], 0, recs)
-        for C in ([], [4], [0], [0x40c], [0x404], [4, 0x40c], [0xff], [1, 4]):
-            for S in ([], [4], [0x400], [0x40c], [0], [0x404], [0x40c, 0x109], [0x109, 0x40c], [0x301, 0x40c], [0x40c, 0x40c, 0x301], [0x401, 0x30c], [0x4ff], [0xffff, 0x1ff]):
-                got = [obs_event(e) for e in run_facade(blob, None, C, S, None, 'kevents')]
+        for C in ([], [4], [0], [0x40c], [0x404], [4, 0x40c], [0xff], [1, 4], [-1], [-252], [-257, 4]):
+            for S in ([], [4], [0x400], [0x40c], [0], [0x404], [0x40c, 0x109], [0x109, 0x40c], [0x301, 0x40c], [0x40c, 0x40c, 0x301], [0x401, 0x30c], [0x4ff], [0xffff, 0x1ff], [-1], [-0xfbf4], [-0x10001]):
+                try:
+                    got = [obs_event(e) for e in run_facade(blob, None, C, S, None, 'kevents')]
+                except Exception as ex:
+                    got = [('RAISED',) * 5 + (0,) + (type(ex).__name__,)]
                 exp = [ref_decode(r) for r in recs if not (C or S) or (ref_decode(r)[5] >> 24) in C or (ref_decode(r)[5] >> 16) in S]
                 acc.case(nontrivial=bool(C or S), transitions=1, state=h64(('collide', tuple(C), tuple(S))))
                 if got != exp:
